@@ -18,6 +18,33 @@ CHECKS = {
         design="3/C18"),
 }
 
+AAVE_TECH = ("TLA+ spec Aave.tla (cache-free state machine of AaveV3Market, rationals) model-checked by TLC (BFS + simulation, "
+             "action properties P_C03/C04/C10/C11/C12, DEV switches); behaviours replayed into the real AaveV3Market with state, "
+             "action records and every derived view compared after each step; states/events recorded from the code validated by "
+             "the TLA+ trace spec Trace_AaveProbe")
+CHECKS.update({
+    "C10": dict(technique=AAVE_TECH, design="3/C10",
+                text="TLC checks on the bounded universe that every operation moves exactly the stated amounts, that a new bar only "
+                     "rescales balances by the index ratio and that exhausted positions disappear; each TLC behaviour (BFS spanning "
+                     "tree of the depth-bounded graph from 4-6 initial portfolios, plus simulated behaviours of depth 14-22) is "
+                     "replayed into AaveV3Market and wallet, scaled balances, amounts (1e-18) and action records are compared"),
+    "C11": dict(technique=AAVE_TECH, design="3/C11",
+                text="TLC checks the borrow / withdraw / collateral-flag guards (HF >= 1 after, debt covered by collateral x max LTV) "
+                     "on every transition; replay compares the accept/reject outcome of every borrow/withdraw/change_collateral and "
+                     "the health factor, max LTV, liquidation threshold and LTV with the spec; the helper amounts "
+                     "(get_max_withdraw_amount / get_max_borrow_amount, the code's exact Decimals) are sent back to TLC, which "
+                     "decides acceptance of the amount itself, a 1e-24 band and 0.1% beyond it"),
+    "C12": dict(technique=AAVE_TECH, design="3/C12",
+                text="the spec's liquidation loop follows the code's pair policy and TLC checks every step against the relational "
+                       "property LiqStepOK and the run against the iff/end conditions; in the other direction every liquidation step "
+                       "the real update() performs (state before, after, action record; harness-side wrapper) and every whole run is "
+                       "validated by TLC against LiqStepOK / LiqRunOK, so a different but legal pair or a smaller repayment does not alarm"),
+    "C13": dict(technique=AAVE_TECH, design="3/C13",
+                text="the spec has no caches: View(st) defines every derived figure from positions, indices and prices; after every "
+                     "event of every replayed behaviour (accepted, rejected, new bar, liquidation), in two read schedules (all views "
+                     "after every step / only at explicit read events), the real market's views are compared with View(st)"),
+})
+
 NOT_YET = "check not built yet in this round (see DESIGN.md section 3 for the planned spec clauses)"
 
 
